@@ -72,7 +72,7 @@ def chain_to_label(nd):
     return list(reversed(out))
 
 
-def c07(sink, cfg, tl, data, P, V, affine, mode, uni2tex=None):
+def c07(sink, cfg, tl, data, P, V, affine, mode, uni2tex=None, times=None):
     d = cfg["direction"]
     n = len(data)
     ok = sink.check
@@ -90,7 +90,8 @@ def c07(sink, cfg, tl, data, P, V, affine, mode, uni2tex=None):
         if j is None:
             continue
         seen.add(j)
-        want = affine(data[j]["time"])
+        # the datum's time AS SUPPLIED by the caller (the constructor may rewrite the dict entry)
+        want = affine(times[j] if times is not None else data[j]["time"])
         # ---- dot
         dx, dy = P["dots"][i]
         al_tok, ac_tok = (dx, dy) if horiz(d) else (dy, dx)
